@@ -5,13 +5,16 @@ V=$(cd "$(dirname "$0")/.." && pwd)
 REPO=${VERIF_REPO:-/repo}
 export GOFLAGS=-mod=mod GOPROXY=off GOSUMDB=off GOTOOLCHAIN=local
 B=${VERIF_BUILD:-$V/.build}
-mkdir -p "$B/bin"
-rm -rf "$B/harness"
-cp -r "$V/harness" "$B/harness"
-cd "$B/harness"
+# VERIF_BUILD_ID: private source copy and binaries per check process, so that
+# checks running at the same time do not build over each other
+S=${VERIF_BUILD_ID:+.$VERIF_BUILD_ID}
+mkdir -p "$B/bin$S"
+rm -rf "$B/harness$S"
+cp -r "$V/harness" "$B/harness$S"
+cd "$B/harness$S"
 sed "s#@REPO@#$REPO#" go.mod.tmpl > go.mod
 cp "$REPO/go.sum" .
-go build -tags verif -o "$B/bin/" ./cmd/...
+go build -tags verif -o "$B/bin$S/" ./cmd/...
 # race-instrumented driver for the concurrent families (C14, C17, C18)
-go build -race -tags verif -o "$B/bin/drive-race" ./cmd/drive
+go build -race -tags verif -o "$B/bin$S/drive-race" ./cmd/drive
 
